@@ -26,6 +26,8 @@ from . import h
 VERIF_ROOT = h.VERIF_ROOT
 EXIT_OK, EXIT_VIOLATION, EXIT_HARNESS = 0, 1, 2
 JOBS = int(os.environ.get('VERIF_JOBS', '16'))
+# VERIF_OUT redirects evidence and replay files (used when a scratch copy of the repository is checked, see bin/run-seeded)
+EVIDENCE_DIR = os.environ.get('VERIF_OUT') or os.path.join(VERIF_ROOT, 'evidence')
 
 
 def load_property(pid):
@@ -187,8 +189,8 @@ def run_conditions(conds, tier, seed, jobs=JOBS, verbose=True):
 # replay
 
 def write_replay(pid, cond_id, cex, tier, n):
-    os.makedirs(os.path.join(VERIF_ROOT, 'evidence', 'replay'), exist_ok=True)
-    path = os.path.join(VERIF_ROOT, 'evidence', 'replay', f'{pid}-{n}.json')
+    os.makedirs(os.path.join(EVIDENCE_DIR, 'replay'), exist_ok=True)
+    path = os.path.join(EVIDENCE_DIR, 'replay', f'{pid}-{n}.json')
     doc = {
         'property': pid, 'condition': cond_id, 'tier': tier,
         'verdict': cex['verdict'], 'detail': cex.get('detail', ''),
@@ -200,10 +202,16 @@ def write_replay(pid, cond_id, cex, tier, n):
     return path
 
 
+def _pythonpath():
+    # same as bin/check: the tree under test (VERIF_REPO, default: /repo through the overlay's .pth) comes first
+    repo = os.environ.get('VERIF_REPO')
+    return (repo + os.pathsep if repo else '') + os.path.join(VERIF_ROOT, 'lib')
+
+
 def replay_subprocess(path, masks=True):
     """Replay a counterexample file in a fresh interpreter without CrossHair tracing."""
     env = dict(os.environ)
-    env['PYTHONPATH'] = os.path.join(VERIF_ROOT, 'lib')
+    env['PYTHONPATH'] = _pythonpath()
     env['PYTHONDONTWRITEBYTECODE'] = '1'
     if not masks:
         env['VERIF_NO_MASKS'] = '1'
@@ -224,7 +232,7 @@ def replay_many(pid, cond_id, cexs):
     with open(tmp, 'wb') as f:
         pickle.dump({'property': pid, 'condition': cond_id, 'args': [c['args'] for c in cexs]}, f, protocol=4)
     env = dict(os.environ)
-    env['PYTHONPATH'] = os.path.join(VERIF_ROOT, 'lib')
+    env['PYTHONPATH'] = _pythonpath()
     env['PYTHONDONTWRITEBYTECODE'] = '1'
     try:
         proc = subprocess.run([sys.executable, '-m', 'verif.runner', '--replay-many', tmp],
@@ -289,7 +297,7 @@ def check_known_findings(pid):
     stale = []
     for entry in h.known_entries(pid):
         wit = entry['witness']
-        tmp = os.path.join(VERIF_ROOT, '.work', f'{pid}-known-{entry["mask"]}.json')
+        tmp = os.path.join(VERIF_ROOT, '.work', f'{pid}-known-{entry["mask"]}-{os.getpid()}.json')
         os.makedirs(os.path.dirname(tmp), exist_ok=True)
         args = {k: eval(v, {'datetime': __import__('datetime'), 'Decimal': __import__('decimal').Decimal})
                 for k, v in wit['args'].items()}
@@ -300,6 +308,7 @@ def check_known_findings(pid):
         with open(tmp, 'w') as f:
             json.dump(doc, f, indent=1)
         got = replay_subprocess(tmp, masks=False)
+        os.unlink(tmp)
         if got['verdict'] not in ('ok', 'assumption-failed', 'replay-error'):
             lines.append(f'KNOWN-FINDING: property={pid} {entry["what"]} '
                          f'[mask={entry["mask"]} witness={wit["condition"]} verdict={got["verdict"]}]')
@@ -436,8 +445,8 @@ def write_evidence(pid, tier, seed, conds, results, violations, known_lines, wal
             'conditions listed as inconclusive are NOT discharged',
         }),
     }
-    os.makedirs(os.path.join(VERIF_ROOT, 'evidence'), exist_ok=True)
-    with open(os.path.join(VERIF_ROOT, 'evidence', f'{pid}.json'), 'w') as f:
+    os.makedirs(EVIDENCE_DIR, exist_ok=True)
+    with open(os.path.join(EVIDENCE_DIR, f'{pid}.json'), 'w') as f:
         json.dump(doc, f, indent=1, default=repr)
 
 
